@@ -169,10 +169,14 @@ def run(tier, seed, replay=None):
         dist[kd] = dist.get(kd, 0) + 1
         if i % 20 == 0 and len(samples) < 5: samples.append(desc)
         snaps = {k: history.Snap(v) for k, v in ops.items()}
+        osp = solverkit.OracleSpy([DM, AM])
         try:
-            with solverkit.ChopSpy([DM, AM]) as spy:
+            with osp, solverkit.ChopSpy([DM, AM]) as spy:
                 y_ = call()
         except Exception as ex:
+            if osp.failed:
+                # QR / SVD (oracles of the model, trusted base) returned non-finite factors for a finite input: a failure of the numerical library, counted
+                dist["oracle failure (QR/SVD non-finite on finite input)"] = dist.get("oracle failure (QR/SVD non-finite on finite input)", 0) + 1; continue
             V.fail("%s raises %s (order %d)" % (routine, type(ex).__name__, d) if d == 1 else "%s raises %s" % (routine, type(ex).__name__), dict(desc, exc=str(ex)[:200])); continue
         bad = solverkit.intact(snaps, list(ops.values()))
         if bad: V.fail("%s modified an operand: %s" % (routine, bad[0].split(":")[0]), dict(desc, differences=bad))
